@@ -212,7 +212,17 @@ def echo_args(m):
     return "vec![%s]" % ", ".join('("%s", vsupport::js(&%s))' % (bare(a.name), a.name) for a in m.args)
 
 
+def ctx_name(m):
+    """Name of the context parameter in the user's own handler: `ctx`, unless an argument has that name."""
+    return "the_ctx" if any(bare(a.name) == "ctx" for a in m.args) else "ctx"
+
+
 def method_body(m, part_label, style, contract_err=None, via_question=False):
+    b = _method_body(m, part_label, style, contract_err, via_question)
+    return b if m.body is not None or ctx_name(m) == "ctx" else b.replace("ctx.deps", "the_ctx.deps").replace("&ctx.env", "&the_ctx.env").replace("&ctx.info", "&the_ctx.info")
+
+
+def _method_body(m, part_label, style, contract_err=None, via_question=False):
     if m.body is not None:
         return m.body
     if style == "stub":
@@ -243,7 +253,7 @@ def render_method(m, part, part_label, style, custom_msg=None, custom_query=None
         lines.append(a)
     ret = m.ret or default_ret(m.kind, part, custom_msg, m.err, m.qret, iface)
     selfp = "".join(a + " " for a in m.self_attrs) + "&self"
-    ctxp = "".join(a + " " for a in m.ctx_attrs) + "ctx: " + (m.ctx_ty or ctx_type(m.kind, custom_query, iface))
+    ctxp = "".join(a + " " for a in m.ctx_attrs) + ctx_name(m) + ": " + (m.ctx_ty or ctx_type(m.kind, custom_query, iface))
     sig = "%sfn %s(%s, %s%s) -> %s" % (m.vis, m.name, selfp, ctxp, render_args(m), ret)
     if decl_only:
         return "\n    ".join(lines + [sig + ";"])
@@ -253,7 +263,7 @@ def render_method(m, part, part_label, style, custom_msg=None, custom_query=None
 def render_impl_method(m, part_label, style, iface, custom_query=None):
     """Implementation of an interface method on the contract (no sv attributes)."""
     ret = m.ret or default_ret(m.kind, "iface", None, m.err, m.qret, iface)
-    ctxp = "ctx: " + ctx_type(m.kind, custom_query, iface)
+    ctxp = ctx_name(m) + ": " + ctx_type(m.kind, custom_query, iface)
     args = "".join(", %s: %s" % (x.name, x.ty) for x in m.args)
     return "fn %s(&self, %s%s) -> %s %s" % (m.name, ctxp, args, ret, method_body(m, part_label, style, via_question=True))
 
